@@ -394,7 +394,11 @@ def gen_nearmiss(rng):
     # literal arguments of a bitstruct constructor: each must fit its field (field x is w bits wide, y 4 bits)
     wb = w
     y = rng.choice([0, 1, 15, 15, 16, 17])
-    stmt = rng.choice([f"s.os @= NMP({lit}, {min(y, 15)})", f"s.os @= NMP({lit & ((1 << w) - 1)}, {y})", f"s.os @= NMP(s.a, {y})"])
+    stmt = rng.choice([f"s.os @= NMP({lit}, {min(y, 15)})", f"s.os @= NMP({lit & ((1 << w) - 1)}, {y})", f"s.os @= NMP(s.a, {y})",
+                       # ... and integer arguments that are no static constants: a conditional of two literals, a temporary, a loop variable
+                       f"s.os @= NMP({lit} if s.c else 1, {min(y, 15)})", f"s.os @= NMP(1, {y} if s.c else 2)",
+                       f"t = {lit}\n      s.os @= NMP(t, 1)", f"t = {y}\n      s.os @= NMP(1, t)",
+                       f"for i in range({y + 1}):\n        s.os @= NMP(1, i)"])
   elif shape == 22:
     # explicitly sized constants under an operator: the result keeps the explicit width (and wraps), whatever the folded value
     wb = w
